@@ -40,7 +40,7 @@ for f in ('patch.diff', 'mutant_demo.rs', 'README.md'):
         shutil.copy(os.path.join(mdir, f), os.path.join(dst, f))
 # 3. the registered checks against the change, applied to /repo and undone straight afterwards
 res = {}
-if meta['confirmed']:
+if meta['confirmed'] and not os.environ.get('SEED_CONFIRM_ONLY'):
     rc, out = run('git -C /repo apply %s' % os.path.join(dst, 'patch.diff'), '/verif')
     if rc != 0:
         # /repo has moved on since the worktree was made (a later fix: commit): merge
